@@ -33,6 +33,7 @@ pub struct PortView {
     pub pending_ctx: Vec<String>,
     pub last_sync: Option<(usize, u16, u128)>, // (master idx, seq, master send time)
     pub queue: Vec<String>,                    // forwarded TLVs waiting for this port (text items)
+    pub acc: Option<Vec<String>>,              // acceptable master list (clock identities, hex)
 }
 
 pub struct World {
@@ -47,7 +48,7 @@ pub struct World {
     pub slave_only: bool,
 }
 
-const CLOCKS: [[u8; 8]; 6] = [
+pub const CLOCKS: [[u8; 8]; 6] = [
     [0x00, 0x11, 0x22, 0xff, 0xfe, 0x33, 0x44, 0x55],
     [0x00, 0x11, 0x22, 0xff, 0xfe, 0x33, 0x44, 0x56],
     [0x10, 0, 0, 0, 0, 0, 0, 1],
@@ -83,7 +84,7 @@ impl World {
     }
 }
 
-fn clock_hex(c: &[u8; 8]) -> String {
+pub fn clock_hex(c: &[u8; 8]) -> String {
     hex(c)
 }
 
@@ -268,7 +269,12 @@ impl<'a> Gen<'a> {
                 asym,
                 rng.below(2)
             );
-            self.w.ports.push(PortView { state: "Listening".into(), p2p, master_only, ..Default::default() });
+            let accv = match acc.as_str() {
+                "-" => None,
+                "none" => Some(vec![]),
+                l => Some(l.split(',').map(|x| x.to_string()).collect()),
+            };
+            self.w.ports.push(PortView { state: "Listening".into(), p2p, master_only, acc: accv, ..Default::default() });
             self.emit(line);
         }
     }
